@@ -18,7 +18,7 @@ type OutgoingTransfer struct {
 	Id uint64
 
 	startFlag  bool
-	dataStream io.Reader
+	dataStream *bufio.Reader
 }
 
 // NewOutgoingTransfer creates a new OutgoingTransfer for data written into the returned Writer.
@@ -27,7 +27,7 @@ func NewOutgoingTransfer(id uint64) (t *OutgoingTransfer, w io.Writer) {
 	t = &OutgoingTransfer{
 		Id:         id,
 		startFlag:  true,
-		dataStream: r,
+		dataStream: bufio.NewReader(r),
 	}
 
 	return
@@ -68,6 +68,9 @@ func (t *OutgoingTransfer) NextSegment(mtu uint64) (dtm *msgs.DataTransmissionMe
 	} else if rErr != nil {
 		err = rErr
 		return
+	} else if _, peekErr := t.dataStream.Peek(1); peekErr == io.EOF {
+		// The segment was filled completely and nothing follows; this is the last one.
+		segFlags |= msgs.SegmentEnd
 	}
 
 	dtm = msgs.NewDataTransmissionMessage(segFlags, t.Id, buf)
